@@ -381,7 +381,9 @@ def replay_evo(rep, light=False, traces=None):
     if herm:
         engines.insert(0, ('LanczosEvolution', kb.LanczosEvolution))
     lam_max = max(abs(l + sigma) for l, _ in comps)
-    for run in case['runs']:
+    for ir, run in enumerate(case['runs']):
+        if light and ir not in (len(case['runs']) - 1, rep.variant % len(case['runs'])):
+            continue        # catalogue cases: the largest N_max and one other
         for name, cls in engines:
             ncs = (None,) if name == 'ArnoldiEvolution' else ((2, None) if not light else ((2, None)[rep.variant % 2],))
             for nc in ncs:
@@ -517,6 +519,9 @@ def replay_arnoldi(rep, light=False):
                     eng = kb.Arnoldi(B.op(), psi0, dict(opts))
                     Es, psis, N = eng.run()
                 rep.count('Arnoldi', (run['Nmax'], which, numev))
+                if isinstance(Es, np.ndarray) and np.shares_memory(Es, eng.Es):
+                    # the returned eigenvalues must not be a window into the engine's work space (a later run overwrites them)
+                    rep.fail('Arnoldi', 'returned-view', dict(shift=bool(sigma)), dict(options=opts))
                 Es = np.array(Es, dtype=complex)        # a copy: the returned array is a view into the engine's `Es`
                 det = dict(options=opts, Es=[[float(e.real), float(e.imag)] for e in Es], N=int(N))
                 if numev == 1 and (not light or which == ('LM', 'LR', 'SR')[rep.variant % 3]):
